@@ -62,6 +62,7 @@ type foScenario struct {
 	// systematic exploration (profile dfs): scheduling decisions are replayed from Choices, then always the first enabled
 	// goroutine is taken; Taken records (choice, number of alternatives) per decision for the backtracking driver
 	Collide               bool // keys 1 and 2 are an xxhash64 collision (the frontend must keep them apart: C09)
+	HoldBuildsOf          int  // random schedules: builders running for this key (1-based) are resumed last
 	WrapErrs              bool // the backend in front of the real one wraps its Read errors with %w (a decorating backend)
 	LateReads, LateWrites bool // backend answers are held back: effect and answer are separate scheduling points
 	DFS                   bool
@@ -115,7 +116,7 @@ func (sc foScenario) describe() map[string]interface{} {
 	}
 	sort.Ints(fs)
 	return map[string]interface{}{"config": sc.Cfg.String(), "keys": strings.Join(ks, " "), "gets": strings.Join(ts, " "),
-		"builder_script": strings.Join(bs, ","), "backend_faults_at_callout": fs, "schedule_seed": sc.SchedSeed, "label": sc.Label, "dfs_choices": sc.Choices, "colliding_keys_1_2": sc.Collide, "backend_wraps_read_errors": sc.WrapErrs, "late_read_answers": sc.LateReads, "late_write_answers": sc.LateWrites}
+		"builder_script": strings.Join(bs, ","), "backend_faults_at_callout": fs, "schedule_seed": sc.SchedSeed, "label": sc.Label, "dfs_choices": sc.Choices, "colliding_keys_1_2": sc.Collide, "builders_of_key_resumed_last": sc.HoldBuildsOf, "backend_wraps_read_errors": sc.WrapErrs, "late_read_answers": sc.LateReads, "late_write_answers": sc.LateWrites}
 }
 
 // foCollide: keys 1 and 2 of the running scenario are a constructed xxhash64 collision (64-byte keys); set per scenario
@@ -644,7 +645,22 @@ func runFoScenario(d *Driver, id string, sc foScenario, res *Result) (trace []st
 			*sc.Taken = append(*sc.Taken, [2]int{c, len(enabled)})
 			t = enabled[c]
 		} else {
-			t = enabled[rng.Intn(len(enabled))]
+			cand := enabled
+			if sc.HoldBuildsOf > 0 {
+				// (directed family: builders of that key are resumed only when nothing else can move)
+				var other []int
+				s.mu.Lock()
+				for _, e := range enabled {
+					if co := s.parked[e]; co == nil || co.kind != "build" || kidOf(co.key) != sc.HoldBuildsOf {
+						other = append(other, e)
+					}
+				}
+				s.mu.Unlock()
+				if len(other) > 0 {
+					cand = other
+				}
+			}
+			t = cand[rng.Intn(len(cand))]
 		}
 		var step string
 		var line string
@@ -953,6 +969,25 @@ func genFoScenario(profile string, seed int64, idx int, tier string) foScenario 
 	ph := fnv.New32a()
 	ph.Write([]byte(profile))
 	rng := rand.New(rand.NewSource(seed*60013 + int64(idx)*101 + int64(ph.Sum32()%1000)))
+	if idx%6 == 5 && (profile == "c01" || profile == "c02" || profile == "c04") {
+		// directed family, random schedules: the caller of a background update reuses its key buffer for ANOTHER key that is
+		// being built synchronously at that time (C01, C04, C09: nothing the first Get left behind may act on the second key)
+		c := foCfg{Variant: []string{"F", "Of"}[(idx/6)%2], SR: rng.Intn(3) == 0, FUT: -1}
+		c.Backend = map[string]string{"F": []string{"sharded", "sync"}[rng.Intn(2)], "Of": "shardedOf"}[c.Variant]
+		sc := foScenario{Cfg: c, SchedSeed: rng.Int63(), FaultAt: map[int]bool{}, Label: profile,
+			Keys:    []foKey{{State: "stale", Val: 10}, {State: "absent", Val: 11}},
+			Threads: []foThread{{Key: 1, RewriteKey: 2}, {Key: 2, RewriteKey: 2}, {Key: 2, RewriteKey: 2}}}
+		for extra := rng.Intn(3); extra > 0; extra-- {
+			sc.Threads = append(sc.Threads, foThread{Key: 2, RewriteKey: 2})
+		}
+		for b := 0; b < 8; b++ {
+			sc.Builds = append(sc.Builds, foBuild{OK: true})
+		}
+		if rng.Intn(2) == 0 {
+			sc.HoldBuildsOf = 2 // the synchronous build of the second key stays in flight as long as possible
+		}
+		return sc
+	}
 	sc := foScenario{Cfg: genFoCfg(rng, idx), SchedSeed: rng.Int63(), FaultAt: map[int]bool{}, Label: profile}
 	nKeys := 1 + rng.Intn(3)
 	for k := 0; k < nKeys; k++ {
